@@ -1,4 +1,5 @@
 import AmaranthVerif.Proofs.Lowering
+import AmaranthVerif.Proofs.AssignBits5
 
 /-!
 # C02 — assignments and control flow: last active assignment wins, per bit
@@ -16,10 +17,18 @@ Proved here, for every program of any nesting and every state (`EnvOk`):
 * `int_pattern_normalised`: an integer Case pattern, normalised to `to_binary(k & mask, width)` (or
   dropped when the test's shape cannot represent it), matches iff the test's value equals it.
 
-Stated but not yet proved for all inputs (the correspondence check compares them on every run,
-`impl = model = spec`): `assign_bits` — one compiled assignment writes exactly the addressed,
-in-range bits (`assignRtlG = applyBits ∘ lbits`, needs `NoAlias`: false with aliasing, finding F9) —
-and `process_spec` — the per-signal commit masks make a comb/sync process equal `progStep`.
+* `assign_bits`: one compiled assignment (the read-modify-write code of `_LHSValueCompiler`, any
+  nesting of slices, part-selects with signal offsets — also beyond the target —, concatenations,
+  array elements, sign reinterpretations) stores bit `k` of the assigned value in the location that
+  position `k` of the target addresses, drops positions that address nothing, and leaves every other
+  bit of every signal untouched — i.e. it *is* the Spec's `applyBits ∘ lbits`. Hypothesis `noAlias`:
+  no signal bit is addressed twice by the operand of a slice or part-select; `f9_witness` shows the
+  hypothesis is necessary (recorded finding F9).
+* `statements_spec`: executing the lowered statements of a whole program equals applying the Spec's
+  writes (last active write wins, per bit) — `lowering_sound` composed with `assign_bits`.
+
+Not proved for all inputs (compared on every run): the per-signal commit masks of a process
+(`LHSMaskCollector`) equal the Spec's "driven bits" — `process_spec`.
 -/
 
 namespace Amaranth.C02
@@ -52,6 +61,34 @@ theorem pattern_compare (p : Pat) (w : Nat) (hp : p.length = w) (t v : Int) (ht 
     ((p.valueNat : Int) == pyAnd (p.maskNat : Int) (t % 2 ^ w)) = p.matchesSpec v :=
   pattern_match_iff p w hp t v ht
 
+/-- One compiled assignment writes exactly the addressed, in-range bits: it is the Spec's assignment. -/
+theorem assign_bits (ctx : Ctx) (cur : Env) (hok : EnvOk ctx cur) (target : Expr)
+    (ht : target.twf ctx = true) (hn : target.noAlias ctx cur) (v : Int) (nxt : Env) (hE : EnvN ctx nxt) :
+    assignRtlG ctx cur target v nxt = applyBits ctx (lbits ctx cur target) 0 v nxt :=
+  assign_rtl_eq_applyBits ctx cur hok target ht hn v nxt hE
+
+/-- Executing the lowered program equals the Spec: initial/previous values overridden by the active
+assignments in program order, the last one winning per bit. -/
+theorem statements_spec (ctx : Ctx) (cur : Env) (hok : EnvOk ctx cur) (prog : List Prog)
+    (h : Prog.listOk ctx prog = true)
+    (ht : ∀ w ∈ Prog.listWrites ctx cur prog, w.1.twf ctx = true ∧ w.1.noAlias ctx cur)
+    (nxt : Env) (hE : EnvN ctx nxt) :
+    execRtl ctx cur (lowerList ctx prog) nxt = applyWrites ctx cur (Prog.listWrites ctx cur prog) nxt := by
+  rw [lowering_sound ctx cur hok prog h nxt]
+  exact (applyWritesRtl_eq_spec ctx cur hok _ ht nxt hE).1
+
+/-! ### F9: without `noAlias` the compiled assignment is not the Spec's
+
+`Cat(t, t).bit_select(o, 1).eq(1)` with `t = 0`, `o = 0`: the Spec (and the testbench, and the netlist)
+set `t[0]`; the compiled circuit leaves `t` unchanged. -/
+
+def f9Ctx : Ctx := [⟨2, false⟩, ⟨1, false⟩]
+def f9Target : Expr := .part (.cat (.sig 0) (.cat (.sig 0) Expr.nil)) (.sig 1) 1 1
+
+theorem f9_witness :
+    f9Target.twf f9Ctx = true ∧
+    assignRtl f9Ctx [0, 0] f9Target 1 = [0, 0] ∧ assignSpec f9Ctx [0, 0] f9Target 1 = [1, 0] := by decide
+
 /-! ### Non-vacuity: a nested program with an Elif chain, a Switch with an unrepresentable integer
 pattern, and a Default followed by an unreachable Case. -/
 
@@ -69,5 +106,6 @@ def exProg : List Prog :=
 example : Prog.listOk exCtx exProg = true := by decide
 example : (Prog.listWrites exCtx exEnv exProg).map (·.2) = [1, 2] := by decide
 example : execRtl exCtx exEnv (lowerList exCtx exProg) exEnv = [2, -3, 5, 7] := by decide
+example : ∀ w ∈ Prog.listWrites exCtx exEnv exProg, w.1.twf exCtx = true := by decide
 
 end Amaranth.C02
